@@ -380,10 +380,74 @@ def _arm(g):
     return (ex, kind)
 
 
+ID_TABLE = {
+    # message type -> {case: id} of its `Identifier<Option<SubscriptionId>>` accessor (frozen from the tree, one line of reason each:
+    # the id is the message's own deserialised subscription id - built by the de_* helper from the channel constant and the
+    # market stated in the message (R3) - or the id of the wrapped payload, handed out VERBATIM; non-data frames have none)
+    "binance::book::l1::BinanceOrderBookL1": {"true": ["Option::Some{0: self.subscription_id}"]},
+    "binance::futures::l2::BinanceFuturesOrderBookL2Update": {"true": ["Option::Some{0: self.subscription_id}"]},
+    "binance::futures::liquidation::BinanceLiquidation": {"true": ["Option::Some{0: self.order.subscription_id}"]},
+    "binance::spot::l2::BinanceSpotOrderBookL2Update": {"true": ["Option::Some{0: self.subscription_id}"]},
+    "binance::trade::BinanceTrade": {"true": ["Option::Some{0: self.subscription_id}"]},
+    "bitfinex::message::BitfinexMessage": {"(self.payload is Heartbeat)": ["Option::None{}"],
+                                           "(self.payload is Trade)": ["Option::Some{0: SubscriptionId::from(ToString::to_string(self.channel_id))}"]},
+    "bybit::message::BybitMessage": {"(self is Response)": ["Option::None{}"], "(self is Trade)": ["Option::Some{0: self.as:Trade.0.subscription_id}"]},
+    "coinbase::trade::CoinbaseTrade": {"true": ["Option::Some{0: self.subscription_id}"]},
+    "kraken::book::l1::KrakenOrderBookL1Inner": {"true": ["Option::Some{0: self.subscription_id}"]},
+    "kraken::message::KrakenMessage": {"(self is Event)": ["Option::None{}"], "(self is Data)": ["Identifier::id(self.as:Data.0)"]},
+    "kraken::trade::KrakenTradesInner": {"true": ["Option::Some{0: self.subscription_id}"]},
+    "okx::trade::OkxMessage": {"true": ["Option::Some{0: self.subscription_id}"]},
+}
+
+
+def r6(ctx):
+    """a message for a subscribed market is recognised by its subscription id: the id accessor of every message type hands out the
+    id deserialised from the message (or the wrapped payload's id) unchanged - an accessor that rewrites it (case, trimming, another
+    field) makes messages of subscribed markets unidentifiable, or attributes them to another subscription"""
+    n = 0
+    seen = set()
+    for d in sorted(ctx.facts.bodies):
+        if not (d.endswith("::id") and "Identifier<std::option::Option<barter_integration::subscription::SubscriptionId>>" in d and
+                d.startswith("<barter_data::exchange::")):
+            continue
+        ty = mir._strip_generics(d.split(" as ")[0][len("<barter_data::exchange::"):])
+        if ty not in ID_TABLE:
+            continue        # other message types (bitmex, gateio: id assembled in the accessor itself) are not decided here
+        seen.add(ty)
+        tab = common.case_table(ctx.ibody(d))
+        n += 1
+        ctx.check(ty + "::id", tab == ID_TABLE[ty], "the message's own subscription id (or its payload's), verbatim; none for non-data frames",
+                  got=tab, want=ID_TABLE[ty], key="id-verbatim")
+    ctx.floor("message id accessors", n, 12)
+
+
+def r7(ctx):
+    """exchange time as stated in the message: the shared timestamp deserialisers turn the stated number into UNIX_EPOCH + exactly that
+    duration, in the stated unit, at full precision (a helper that rounds or re-scales shifts `time_exchange` of every connector using it)"""
+    want = {"de_u64_epoch_ms_as_datetime_utc": ("Deserialize::deserialize(deserializer)", "Duration::from_millis(%s)"),
+            "de_str_u64_epoch_ms_as_datetime_utc": ("de::de_str(deserializer)", "Duration::from_millis(%s)"),
+            "de_str_f64_epoch_ms_as_datetime_utc": ("de::de_str(deserializer)", "Duration::from_millis((%s as u64))"),
+            "de_str_f64_epoch_s_as_datetime_utc": ("de::de_str(deserializer)", "Duration::from_secs_f64(%s)")}
+    n = 0
+    for nm, (src, dur) in want.items():
+        ds = [x for x in ctx.facts.bodies if mir._strip_generics(x) == "barter_integration::de::" + nm]
+        if len(ds) != 1:
+            raise Exception("anchor not found: " + nm)
+        tab = common.case_table(ctx.ibody(ds[0]))
+        exp = {"(%s is Err)" % src: ["Result::Err{0: %s.as:Err.0}" % src],
+               "(%s is Ok)" % src: ["Result::Ok{0: From::from(Add::add(std::time::UNIX_EPOCH, %s))}" % (dur % (src + ".as:Ok.0"))]}
+        n += 1
+        ctx.check("de::" + nm, tab == exp, "Ok(UNIX_EPOCH + the stated value in its stated unit, unrounded); a deserialisation error is passed on",
+                  got=tab, want=exp, key="stated-time")
+    ctx.floor("timestamp deserialisers", n, 4)
+
+
 RULES = [
     ("R1", "StatelessTransformer::transform outcome table; keyed id lookup", r1),
     ("R2", "mapper pairs each subscription's id with that subscription's instrument key", r2),
     ("R3", "writer/reader agreement of channel constants (subscription side vs message side)", r3),
     ("R4", "field roles in every (ExchangeId, InstrumentKey, Msg) -> MarketEvent conversion", r4),
     ("R5", "dynamic stream builder arms: connector ID, kind and channel per arm", r5),
+    ("R6", "message id accessors hand out the deserialised subscription id verbatim", r6),
+    ("R7", "shared timestamp deserialisers: UNIX_EPOCH + the stated value, stated unit, full precision", r7),
 ]
